@@ -1,10 +1,554 @@
-// Package c07 holds the runtime monitors for property C07 (see DESIGN.md section 4).
+// Package c07 holds the runtime monitors for property C07: parsing is total —
+// an error or a well-formed tree, and nothing left running (DESIGN.md section 4).
 package c07
 
-import "verif/harness/core"
+import (
+	"fmt"
+	"os"
+	"runtime"
+	"sort"
+	"strings"
+
+	"github.com/krotik/ecal/interpreter"
+	"github.com/krotik/ecal/parser"
+	"github.com/krotik/ecal/scope"
+	"github.com/krotik/ecal/util"
+
+	"verif/harness/core"
+)
 
 func init() { core.Register("C07", Run) }
 
+const srcName = "c07src"
+const evalBudget = 3000
+
+type monitor struct {
+	c        *core.Ctx
+	erp      *interpreter.ECALRuntimeProvider
+	dbg      *stepDebugger
+	erpUses  int
+	expected int            // goroutines expected to exist (baseline + leaks seen so far)
+	quota    map[string]int // goroutine dumps left per leak class
+	counts   map[string]int64
+	emitted  map[string]int // violation records written per key
+	slot     int
+}
+
+func newMonitor(c *core.Ctx) *monitor {
+	m := &monitor{c: c, counts: map[string]int64{}, emitted: map[string]int{},
+		quota: map[string]int{"after-error": 6, "after-tree": 6, "after-panic": 6}}
+	m.dbg = &stepDebugger{budget: evalBudget}
+	m.newERP()
+	return m
+}
+
+func (m *monitor) newERP() {
+	n0 := runtime.NumGoroutine()
+	erp := interpreter.NewECALRuntimeProvider(srcName, &util.MemoryImportLocator{Files: map[string]string{}}, util.NewNullLogger())
+	// The cron goroutine is not needed (the trigger built-ins are removed) and
+	// must not be confused with goroutines created by a parse. Cron.Stop is
+	// never called synchronously: krotik/common's Stop can deadlock with the
+	// cron goroutine's tick. If that ever happens the two goroutines simply
+	// stay part of the baseline.
+	go erp.Cron.Stop()
+	for i := 0; i < 2000 && runtime.NumGoroutine() > n0; i++ {
+		runtime.Gosched()
+	}
+	erp.Debugger = m.dbg
+	m.erp = erp
+	m.erpUses = 0
+	m.expected = settle()
+}
+
+func (m *monitor) ev(name string) { m.counts[name]++ }
+
+func (m *monitor) flush() {
+	for k, v := range m.counts {
+		m.c.Event(k, v)
+	}
+}
+
+func trunc(s string, n int) string {
+	if len(s) > n {
+		return s[:n] + fmt.Sprintf("…(%d bytes)", len(s))
+	}
+	return s
+}
+
+func (m *monitor) violation(key, what, stream string, idx int, src string, extra map[string]interface{}) {
+	m.counts["violation:"+key]++
+	if m.emitted[key] >= 4 {
+		return
+	}
+	m.emitted[key]++
+	d := map[string]interface{}{"input": trunc(src, 1500), "input_quoted": fmt.Sprintf("%q", trunc(src, 600))}
+	for k, v := range extra {
+		d[k] = v
+	}
+	m.c.Violation(key, what, stream, idx, d)
+}
+
+var knownErrTypes = map[error]string{
+	parser.ErrUnexpectedEnd:            "Unexpected end",
+	parser.ErrLexicalError:             "Lexical error",
+	parser.ErrUnknownToken:             "Unknown term",
+	parser.ErrImpossibleNullDenotation: "Term cannot start an expression",
+	parser.ErrImpossibleLeftDenotation: "Term can only start an expression",
+	parser.ErrUnexpectedToken:          "Unexpected term",
+}
+
+var modes = []string{"Parse", "ParseWithRuntime"}
+
+// check runs one input through both entry points and applies all oracles.
+func (m *monitor) check(stream string, idx int, src string) {
+	for mode := 0; mode < 2; mode++ {
+		m.one(stream, idx, src, mode)
+	}
+}
+
+func (m *monitor) parse(src string, mode int) (tree *parser.ASTNode, err error, key, msg string, panicked bool) {
+	key, msg, panicked = core.Guard(func() {
+		if mode == 0 {
+			tree, err = parser.Parse(srcName, src)
+		} else {
+			tree, err = parser.ParseWithRuntime(srcName, src, m.erp)
+		}
+	})
+	return
+}
+
+func (m *monitor) one(stream string, idx int, src string, mode int) {
+	if mode == 1 {
+		m.erpUses++
+		if m.erpUses > 20000 {
+			m.newERP()
+		}
+	}
+	tree, err, pkey, pmsg, panicked := m.parse(src, mode)
+	n := settle()
+	class := "after-tree"
+	switch {
+	case panicked:
+		class = "after-panic"
+	case err != nil:
+		class = "after-error"
+	}
+	m.ev("call." + modes[mode])
+	m.leakCheck(n, class, stream, idx, src, mode)
+	extra := map[string]interface{}{"entry": modes[mode]}
+	if panicked {
+		m.ev("parse.panic")
+		extra["panic"] = trunc(pmsg, 2500)
+		m.violation(pkey, "panic inside "+modes[mode], stream, idx, src, extra)
+		return
+	}
+	if err != nil {
+		m.checkError(err, tree, stream, idx, src, extra)
+	}
+	switch {
+	case tree != nil && err != nil:
+		m.ev("parse.tree-and-error")
+		b := 60
+		extra["error"] = err.Error()
+		extra["tree"] = sexpr(tree, &b)
+		w := checkShape(tree, mode == 1)
+		if len(w.probs) > 0 {
+			extra["tree_problem"] = w.probs[0].key
+		}
+		m.violation("tree-and-error", modes[mode]+" returned a tree together with an error", stream, idx, src, extra)
+		return
+	case tree == nil && err == nil:
+		m.ev("parse.nothing")
+		m.violation("no-tree-no-error", modes[mode]+" returned neither a tree nor an error", stream, idx, src, extra)
+		return
+	case err != nil:
+		return
+	}
+	m.ev("parse.tree")
+	m.walk(tree, stream, idx, src, mode, extra)
+}
+
+func (m *monitor) checkError(err error, tree *parser.ASTNode, stream string, idx int, src string, extra map[string]interface{}) {
+	pe, ok := err.(*parser.Error)
+	if !ok || pe == nil {
+		m.violation(fmt.Sprintf("error-not-positioned:%T", err), "the returned error is not a *parser.Error", stream, idx, src,
+			map[string]interface{}{"error": fmt.Sprint(err), "entry": extra["entry"]})
+		return
+	}
+	tname, known := knownErrTypes[pe.Type]
+	if !known {
+		tname = fmt.Sprint(pe.Type)
+	}
+	m.ev("parse.error:" + tname)
+	d := map[string]interface{}{"error": pe.Error(), "line": pe.Line, "pos": pe.Pos, "entry": extra["entry"]}
+	if pe.Source != srcName {
+		m.violation("error-source", "the error does not name the source given to the parser", stream, idx, src, d)
+	}
+	if pe.Type == nil {
+		m.violation("error-type-nil", "the error has no type", stream, idx, src, d)
+	}
+	lines := 1 + strings.Count(src, "\n")
+	switch {
+	case pe.Line == 0 && pe.Pos == 0 && pe.Type == parser.ErrUnexpectedEnd:
+		// the code's own convention for "input ended": an error without a
+		// position (the error text then carries no Line/Pos either)
+		m.ev("parse.error.unpositioned-end-of-input")
+	case pe.Type == parser.ErrUnexpectedEnd && pe.Line >= 1 && pe.Line <= lines:
+		// end of input reported at the EOF token: the lexer stamps that token
+		// with the start offset of the previous token, so its column is not
+		// meaningful (it can even be <= 0 after a trailing newline). The rule
+		// is calibrated not to demand more than this convention; EOF has no
+		// first character (see C18).
+		if pe.Pos < 1 {
+			m.ev("parse.error.end-of-input-with-nonpositive-column")
+		}
+	case pe.Line < 1 || pe.Line > lines || pe.Pos < 1:
+		d["lines_in_input"] = lines
+		m.violation("error-position:"+tname, "the error carries no position inside the input", stream, idx, src, d)
+	}
+	m.c.NontrivialKey(fmt.Sprintf("err|%s|%d|%d", tname, pe.Line, pe.Pos))
+}
+
+// walk applies the shape table and runs the tree consumers.
+func (m *monitor) walk(tree *parser.ASTNode, stream string, idx int, src string, mode int, extra map[string]interface{}) {
+	w := checkShape(tree, mode == 1)
+	m.counts["walk.nodes"] += int64(w.nodes)
+	if w.nodes >= 2 {
+		m.c.Nontrivial(core.Hash64("tree|" + src))
+	}
+	b := 80
+	tr := sexpr(tree, &b)
+	if idx%997 == 3 {
+		m.c.Sample(stream+"-tree", map[string]interface{}{"input": trunc(src, 300), "tree": tr})
+	}
+	structural := len(w.probs) > 0
+	cons := map[string]interface{}{}
+	// consumers (guarded)
+	if mode == 0 {
+		k, msg, p := core.Guard(func() {
+			_, err := parser.PrettyPrint(tree)
+			if err != nil {
+				m.ev("walk.prettyprint.error")
+			} else {
+				m.ev("walk.prettyprint.ok")
+			}
+		})
+		if p {
+			m.ev("walk.prettyprint.panic")
+			if structural {
+				cons["PrettyPrint"] = k
+			} else {
+				e := copyMap(extra)
+				e["tree"] = tr
+				e["panic"] = trunc(msg, 2500)
+				m.violation(k, "PrettyPrint of a returned tree panics", stream, idx, src, e)
+			}
+		}
+	} else {
+		var verr error
+		k, msg, p := core.Guard(func() { verr = tree.Runtime.Validate() })
+		switch {
+		case p:
+			m.ev("walk.validate.panic")
+			if structural {
+				cons["Validate"] = k
+			} else {
+				e := copyMap(extra)
+				e["tree"] = tr
+				e["panic"] = trunc(msg, 2500)
+				m.violation(k, "Validate of a returned tree panics", stream, idx, src, e)
+			}
+		case verr != nil:
+			m.ev("walk.validate.error")
+		default:
+			m.ev("walk.validate.ok")
+			m.eval(tree, tr, structural, cons, stream, idx, src, extra)
+		}
+		if w.kinds[parser.NodeSINK] || w.kinds[parser.NodeMUTEX] {
+			m.newERP() // rules and mutexes registered by the evaluation
+		}
+	}
+	// shape problems, each with the consequences seen in the consumers
+	seen := map[string]bool{}
+	for _, p := range w.probs {
+		if seen[p.key] {
+			continue
+		}
+		seen[p.key] = true
+		e := copyMap(extra)
+		e["tree"] = tr
+		e["path"] = p.path
+		if len(cons) > 0 {
+			e["consequence"] = cons
+		}
+		m.violation(p.key, "ill-formed tree: "+p.what, stream, idx, src, e)
+	}
+}
+
+func copyMap(m map[string]interface{}) map[string]interface{} {
+	r := map[string]interface{}{}
+	for k, v := range m {
+		r[k] = v
+	}
+	return r
+}
+
+func (m *monitor) eval(tree *parser.ASTNode, tr string, structural bool, cons map[string]interface{}, stream string, idx int, src string, extra map[string]interface{}) {
+	m.dbg.steps = 0
+	var eerr error
+	k, msg, p := core.Guard(func() {
+		vs := scope.NewScope(scope.GlobalScope)
+		_, eerr = tree.Runtime.Eval(vs, make(map[string]interface{}), m.erp.NewThreadID())
+	})
+	n := settle()
+	if n != m.expected {
+		// an evaluation that started something (it should not: the event and
+		// trigger built-ins are removed) must not disturb the leak baseline
+		m.ev("eval.goroutine-count-changed")
+		m.expected = n
+	}
+	switch {
+	case p:
+		st, decided, line := structuralPanic(msg)
+		switch {
+		case !decided:
+			m.ev("eval.panic.undecided")
+			m.c.Inconclusive("panic during evaluation of a returned tree could not be classified (source of the frame not readable)", stream, idx,
+				map[string]interface{}{"input": trunc(src, 600), "panic": trunc(msg, 1500)})
+		case st && structural:
+			cons["Eval"] = k
+		case st:
+			m.ev("eval.panic.structural")
+			e := copyMap(extra)
+			e["tree"] = tr
+			e["panic"] = trunc(msg, 2500)
+			e["source_line"] = line
+			m.violation(k, "evaluation of a returned, validated tree panics on the tree's structure", stream, idx, src, e)
+		default:
+			m.ev("eval.panic.value-level(ignored,C06):" + k)
+		}
+	case eerr != nil:
+		if m.dbg.steps > m.dbg.budget {
+			m.ev("walk.eval.budget")
+		} else {
+			m.ev("walk.eval.error")
+		}
+	default:
+		m.ev("walk.eval.ok")
+	}
+}
+
+// ---------------------------------------------------------------------
+
+func (m *monitor) leakCheck(n int, class, stream string, idx int, src string, mode int) {
+	if n < m.expected {
+		m.expected = n
+		return
+	}
+	if n == m.expected {
+		return
+	}
+	m.ev("leak.goroutines-alive-after-call:" + class)
+	if m.quota[class] <= 0 {
+		m.counts["leak.unattributed:"+class] += int64(n - m.expected)
+		m.expected = n
+		return
+	}
+	m.quota[class]--
+	// confirmation run with goroutine dumps around it
+	before := goroutines()
+	m.parse(src, mode)
+	settle()
+	after := goroutines()
+	var fresh []ginfo
+	for id, g := range after {
+		if _, ok := before[id]; !ok {
+			fresh = append(fresh, g)
+		}
+	}
+	for try := 0; try < 200; try++ {
+		busy := false
+		for _, g := range fresh {
+			if g.state == "running" || g.state == "runnable" {
+				busy = true
+			}
+		}
+		if !busy {
+			break
+		}
+		settle()
+		cur := goroutines()
+		var nf []ginfo
+		for _, g := range fresh {
+			if c, ok := cur[g.id]; ok {
+				nf = append(nf, c)
+			}
+		}
+		fresh = nf
+	}
+	if len(fresh) == 0 {
+		m.c.Inconclusive("goroutine count stayed elevated after the call but a re-run under goroutine dumps showed no surviving goroutine", stream, idx,
+			map[string]interface{}{"input": trunc(src, 600), "entry": modes[mode]})
+	}
+	for _, g := range fresh {
+		var key, what string
+		switch {
+		case g.state == "running" || g.state == "runnable":
+			m.c.Inconclusive("a goroutine created by the call was still running after 200 scheduler rounds", stream, idx,
+				map[string]interface{}{"input": trunc(src, 600), "goroutine": trunc(g.raw, 1200)})
+			continue
+		case isLexer(g.raw) && g.state == "chan send":
+			key = "leak:lexer-chan-send"
+			if class != "after-error" {
+				key += ":" + class
+			}
+			what = "the lexer goroutine of the call is blocked forever in `chan send` (its channel died with the parser object)"
+		case isLexer(g.raw):
+			key = "leak:lexer-" + g.state + ":" + class
+			what = "the lexer goroutine of the call is still alive in state " + g.state
+		default:
+			key = "leak:goroutine:" + firstEcalFrame(g.raw) + ":" + g.state
+			what = "a goroutine created by the call is still alive in state " + g.state
+		}
+		m.violation(key, what+" after "+modes[mode]+" returned ("+class+")", stream, idx, src,
+			map[string]interface{}{"entry": modes[mode], "goroutine": trunc(g.raw, 1500)})
+	}
+	m.expected = runtime.NumGoroutine()
+}
+
+// census counts, once at the end of the batch, the goroutines that sit in the
+// witness state (grouped by the pprof-style stack they are blocked in).
+func (m *monitor) census() {
+	if runtime.NumGoroutine() > 400000 {
+		m.counts["leak.census.skipped"]++
+		return
+	}
+	nl := 0
+	for _, g := range goroutines() {
+		if isLexer(g.raw) && g.state == "chan send" {
+			nl++
+		}
+	}
+	m.counts["leak.census.lexer-goroutines-in-chan-send"] += int64(nl)
+}
+
+// ---------------------------------------------------------------------
+
+func repoDir() string {
+	if d := os.Getenv("VERIF_REPO"); d != "" {
+		return d
+	}
+	return "/repo"
+}
+
 // Run is the check.
 func Run(c *core.Ctx) {
+	runtime.GOMAXPROCS(1)
+	// built-ins that sleep, start the event processor or register timers are
+	// taken out of the interpreter's function table for the bounded Eval
+	for _, f := range []string{"sleep", "addEvent", "addEventAndWait", "setCronTrigger", "setPulseTrigger"} {
+		delete(interpreter.InbuildFuncMap, f)
+	}
+	c.Note("rule", fmt.Sprintf("every input goes through parser.Parse and parser.ParseWithRuntime(ECALRuntimeProvider). "+
+		"enum-L<n>: ALL sequences of n entries (n<=4 quick, <=5 thorough) over a %d-entry alphabet of tokens and block-opening fragments %q joined by one space (case idx = prefix of n-1 entries, one input per alphabet entry per case); "+
+		"mut: 1..3 token-level mutations (delete, duplicate, swap, drop/insert/replace bracket, stray ; } ) inside blocks, replace/insert random token, truncate, relayout newline) of seed programs = own templates + /repo/examples/**/*.ecal + raw string literals of /repo *_test.go that look like source (lexical filter; math.* users left out); "+
+		"bytes: random inputs <=2048 bytes (uniform bytes, ASCII noise with control/NUL/high bytes, token soup with control separators, programs with invalid UTF-8/NUL/BOM injected, long runs of one structural character). "+
+		"Oracles: exactly one of (tree,error); error is *parser.Error naming the source with Line>=1,Pos>=1 inside the input (the code's own end-of-input convention Line=Pos=0 with type 'Unexpected end' is accepted); shape table per node kind; Validate/PrettyPrint panics; Eval (<=%d steps via counting debugger) panics on node structure; goroutines alive after the call (GOMAXPROCS=1 + Gosched settle, witness from goroutine dump). "+
+		"distinct_nontrivial = distinct inputs whose returned tree has >=2 nodes (walked by the shape table and consumers) + distinct (error type, line, pos) signatures", len(alphabet), alphabet, evalBudget))
+	c.Note("exhaustive", "true")
+	m := newMonitor(c)
+	corpus, counts := loadCorpus(repoDir())
+	for k, v := range counts {
+		c.Note("corpus."+k, fmt.Sprint(v))
+	}
+
+	// (a) exhaustive token/fragment sequences
+	maxLen := c.Pick(4, 5)
+	A := len(alphabet)
+	if c.Take("enum-L0", 0) {
+		c.Begin(0, "enum-L0", 0, "")
+		m.check("enum-L0", 0, "")
+		c.End(0)
+	}
+	for n := 1; n <= maxLen; n++ {
+		stream := fmt.Sprintf("enum-L%d", n)
+		prefixes := 1
+		for k := 1; k < n; k++ {
+			prefixes *= A
+		}
+		for p := 0; p < prefixes; p++ {
+			if !c.Take(stream, p) {
+				continue
+			}
+			seq := append(seqFromIndex(p, n-1), 0)
+			c.Begin(0, stream, p, joinSeq(seq[:n-1])+" <each alphabet entry>")
+			for t := 0; t < A; t++ {
+				seq[n-1] = t
+				m.check(stream, p, joinSeq(seq))
+			}
+			c.AddEvals(A - 1)
+		}
+	}
+	c.End(0)
+
+	// (b) mutations of valid programs
+	nm := c.Pick(40000, 600000)
+	for i := 0; i < nm; i++ {
+		if !c.Take("mut", i) {
+			continue
+		}
+		r := c.Rng("mut", i)
+		seed := corpus[r.Intn(len(corpus))]
+		if r.Chance(1, 3) { // own templates get a third of the cases
+			seed = templates[r.Intn(len(templates))]
+		}
+		src, ops := mutate(r, seed)
+		c.Begin(0, "mut", i, src)
+		m.ev("mut.op:" + strings.Join(ops, "+"))
+		m.check("mut", i, src)
+		if i%4001 == 0 {
+			c.Sample("mut", map[string]interface{}{"ops": ops, "input": trunc(src, 300)})
+		}
+	}
+	c.End(0)
+	// the unmutated seeds themselves (they must parse to well-formed trees or fail cleanly)
+	for i, s := range corpus {
+		if !c.Take("seed", i) {
+			continue
+		}
+		c.Begin(0, "seed", i, s)
+		m.check("seed", i, s)
+	}
+	c.End(0)
+
+	// (c) random bytes
+	nb := c.Pick(30000, 500000)
+	for i := 0; i < nb; i++ {
+		if !c.Take("bytes", i) {
+			continue
+		}
+		r := c.Rng("bytes", i)
+		src, kind := randomBytes(r, corpus)
+		c.Begin(0, "bytes", i, src)
+		m.ev("bytes.kind:" + kind)
+		m.check("bytes", i, src)
+		if i%5003 == 0 {
+			c.Sample("bytes", map[string]interface{}{"kind": kind, "input_quoted": fmt.Sprintf("%q", trunc(src, 200))})
+		}
+	}
+	c.End(0)
+	m.census()
+	// compact the many mutation-operator counters
+	var opKeys []string
+	for k := range m.counts {
+		if strings.HasPrefix(k, "mut.op:") && strings.Contains(k, "+") {
+			opKeys = append(opKeys, k)
+		}
+	}
+	sort.Strings(opKeys)
+	for _, k := range opKeys {
+		m.counts["mut.op:combined"] += m.counts[k]
+		delete(m.counts, k)
+	}
+	m.flush()
 }
